@@ -129,15 +129,23 @@ def main(argv):
     crashes = []
     nontriv = set()
     cdirs = {"internal": cdir}
+    qdirs = {"internal": (qdir, status)}
     for fam in fams:
         if fam.config not in cdirs:
             try:
                 cdirs[fam.config] = vlib.build_c(fam.config)
+                # the same Gallina model, compiled against the Constants.v regenerated from THIS build's config.h
+                qdirs[fam.config] = vlib.build_coq(cdirs[fam.config], model_only=True)
             except vlib.BuildError as e:
+                cdirs[fam.config] = None
                 notes.append(f"configuration {fam.config} could not be built: {str(e)[:200]}")
-                continue
-        use_model = fam.model and status.get("_mdrv")
-        res = vlib.run_pairs(cdirs[fam.config], qdir, fam.scripts, with_model=use_model)
+        if cdirs[fam.config] is None:
+            continue
+        fq, fst = qdirs[fam.config]
+        use_model = fam.model and fst.get("_mdrv")
+        if fam.model and not use_model:
+            notes.append(f"model driver for configuration {fam.config} could not be built")
+        res = vlib.run_pairs(cdirs[fam.config], fq, fam.scripts, with_model=use_model)
         nops = 0
         fstat = {"scripts": len(res), "ops": 0, "disagreements": 0, "crashes": 0, "monitor_hits": 0}
         for r in res:
